@@ -21,10 +21,13 @@ from vcheck import SPECS, WORK, Infra, log, run_tlc
 from tablecheck import table_check
 
 CLAUSES = ["LastSet", "Isolation", "RemovedAbsent", "NotFoundIgnored", "Mirror", "MirrorOnError", "MirrorConcurrent", "NetOrder", "NoEarlyExpiry", "FreshKept",
-           "ExpiryOnlyGarden", "ExpiryDue", "ExpiryStamp", "AllowedExact", "KeyEncoding", "StatsTrue", "ListExact"]
+           "ExpiryOnlyGarden", "ExpiryDue", "ExpiryStamp", "AllowedExact", "KeyEncoding", "StatsTrue", "ListExact",
+           # pkg/wifi gateway sessions (specs/WalledGarden/WifiGateway.tla)
+           "SessionTable", "GwIsolation", "RenewSame", "CreateResult", "NotFoundError", "ReleaseIdempotent", "LeaseStamp", "IndexExact", "GwListExact",
+           "GwNoEarlyExpiry", "ExpiredCleaned", "GraceFlag", "NeedsAuth", "CallbackOnce", "GwStatsTrue"]
 
 # must describe the same configuration as Cfg in specs/WalledGarden/WalledGardenShape.tla
-SHAPE_CFG = dict(impl="shape", nm=2, maps=True, T=1, cap=4, full=1, order=False, dns=[1], portal=[3, 8080], custom=[],
+SHAPE_CFG = dict(kind="wg", impl="shape", nm=2, maps=True, T=1, cap=4, full=1, order=False, dns=[1], portal=[3, 8080], custom=[],
                  ops=["add", "rel", "blk", "rm", "set", "adv", "race", "trace"], vlans=[5], sets=[0], advs=[1], racen=50000, nsubs=0)
 
 DESIGN = [("WalledGardenDesign", "MC_design.cfg", 4), ("WalledGardenShape", "MC_shape_fixed.cfg", 1)]
